@@ -94,7 +94,7 @@ pub fn campaign(target: &str, seed: u64, runs: u64, procs: usize, max_len: usize
             .arg("-print_final_stats=1")
             .arg("-timeout=60")
             .arg("-detect_leaks=0")
-            .arg("-rss_limit_mb=4096")
+            .arg("-rss_limit_mb=8192")
             .arg(format!("-dict={dict}"))
             .stdout(std::process::Stdio::null());
         if let Some(l) = log {
